@@ -15,8 +15,10 @@ def run(chk):
     chk.lean(L.LAYOUT_MODULE, L.C04_THEOREMS, extra_files=L.LAYOUT_FILES)
     chk.lean("FfcxProofs.C08", ["Ffcx.LNodes.subscript_in_extent", "Ffcx.LNodes.flatten_inj"])
     chk.lean("FfcxProofs.C17", ["Ffcx.LNodes.global_index_value"])
+    chk.lean(L.C04_STORE_MODULE, L.C04_STORE_THEOREMS, extra_files=L.C04_STORE_FILES)
     with lean.Driver("driver_layout") as d:
         L.check_c04_descriptor(chk, d)
+        L.check_c04_stores(chk, d)
     ents = corpus.expressions()
     reps = 3 if chk.tier == "thorough" else 1
 
@@ -56,4 +58,4 @@ def run(chk):
                 elif not np.isnan(B).any() and float(np.abs(A - B[:len(A)]).max()) > 1e-11 * max(1.0, float(np.abs(A).max())):
                     chk.disagree("LNodes semantics (Lean, Float) vs compiled C expression kernel", {"kernel": c.name})
     if chk.tier == "thorough":
-        chk.leanchecker([L.LAYOUT_MODULE])
+        chk.leanchecker([L.LAYOUT_MODULE, L.C04_STORE_MODULE])
